@@ -32,7 +32,7 @@ ASSUMPTIONS = ['closeness is asserted only when no warning was issued and the sp
 
 def plan(prop, tier):
     if tier == 'quick':
-        return {'runs': 2400, 'cap': 60.0, 'det_runs': 30}
+        return {'runs': 2400, 'cap': 60.0, 'det_runs': 30, 'legs': [{'hashseed': h} for h in (0, 1, 2, 3)]}
     return {'cap': 120.0, 'budget_s': 900, 'legs': [{'hashseed': h} for h in (0, 1, 2, 3)]}
 
 
